@@ -292,6 +292,10 @@ wav_open	(SF_PRIVATE *psf)
 		default : 	return SFE_UNIMPLEMENTED ;
 		} ;
 
+	/* A codec that could not be set up (e.g. one that cannot do SFM_RDWR) must fail the open. */
+	if (error)
+		return error ;
+
 	if (psf->file.mode == SFM_WRITE || (psf->file.mode == SFM_RDWR && psf->filelength == 0))
 		return psf->write_header (psf, SF_FALSE) ;
 
